@@ -11,6 +11,7 @@ import RbpfModel.Model.DriveHelpers
 import RbpfModel.Model.DriveApi
 import RbpfModel.Model.DriveXadd
 import RbpfModel.Model.DriveX86
+import RbpfModel.Model.DriveClif
 open Rbpf Rbpf.Hex
 
 def insnStr (i : Insn) : String :=
@@ -101,6 +102,8 @@ def handle (toks : List String) : String :=
   | ["verify", prog] => Drive.handleVerify prog
   | "exec" :: rest => Drive.handleExec rest
   | "x86" :: rest => Drive.handleX86 rest
+  | ["clifdump", p, ids] => Drive.handleClifDump p ids
+  | ["clifdump", p, ids, "res"] => Drive.handleClifDumpR p ids
   | _ => "bad-op"
 
 partial def loop (h : IO.FS.Stream) (out : IO.FS.Stream) : IO Unit := do
